@@ -14,6 +14,8 @@ SCHEMAS = [
     (mkfield('a', prim('String'), default='d'), mkfield('b', N(prim('Boolean'))), mkfield('n', N(prim('Int32'))),
      mkfield('f', prim('Float64'), default=1.5)),
     (mkfield('r', prim('Int32')), mkfield('a', N(prim('String', pattern='[a-c]+'))), mkfield('t', N(ts('%Y')))),
+    # optional attributes declared before a required one: declaration order differs from required-first order
+    (mkfield('a', prim('String'), default='d'), mkfield('r', prim('Int32')), mkfield('b', N(prim('Boolean')))),
 ]
 
 
